@@ -79,7 +79,7 @@ let main (args : string list) : unit =
          in
          print_endline (go (bytes_of_hex outer) layers)
        | [] -> print_endline ""
-       | _ -> print_endline "BAD")
+       | toks -> (match Cmd_frames.answer toks with Some a -> print_endline a | None -> print_endline "BAD"))
     done
   with End_of_file -> ());
   flush stdout
